@@ -123,7 +123,7 @@ def run_impl(case, script=None, rand_script=None):
     from maze_dataset.generation.generators import LatticeMazeGenerators as LG
     warnings.filterwarnings("ignore")
     f = getattr(LG, "gen_" + case["gen"])
-    shape = np.array([case["rows"], case["cols"]])
+    shape = np.array([case["rows"], case["cols"]], dtype=case.get("shape_dtype", None))
     with Tap(script, rand_script) as t:
         try:
             m = f(shape, **case["kwargs"])
@@ -275,6 +275,12 @@ def oracle_c12(case, impl) -> str | None:
             return f"visited_cells {impl['visited']} != cells reachable from start {list(start)}: {want}"
     comp = impl.get("component")
     if comp == "ValueError": return "get_connected_component() raised: maze neither flagged nor carrying visited_cells"
+    if isinstance(comp, list) and impl["visited"] is not None and impl["fully_connected"] is not True:
+        # the component offered for endpoint sampling is the recorded visited set of THIS maze (not of another maze with equal walls)
+        if sorted(map(list, comp)) != sorted(map(list, impl["visited"])):
+            return f"get_connected_component() returned {sorted(map(list, comp))[:6]}… ({len(comp)} cells) but this maze records visited_cells {impl['visited'][:6]}… ({len(impl['visited'])} cells)"
+    if isinstance(comp, list) and impl["fully_connected"] is True and len(comp) != n:
+        return f"maze flagged fully_connected but get_connected_component() returned {len(comp)} of {n} cells"
     if comp:
         rs = reach_from(adj, tuple(comp[0]))
         for v in comp:
